@@ -139,6 +139,16 @@ CHECKS["C13"] = dict(
     note="Trusted: Coq kernel + VM, translator, the hand model of get_validator's cache. Partial: races inside jsonschema "
          "objects and per-thread interpreter state (decimal context) are only observed.", design="4/C13")
 
+CHECKS["C15"] = dict(
+    technique="Rocq theorems over a model of the decorators' global name list and attribute lookup (fold invariants, NoDup) + routing correspondence",
+    text="C15_on_is_resolved / C15_after_is_resolved / C15_*_absent: for every process history of class definitions, the "
+         "entry of an action is the (unique) decorated method that lookup on the instance resolves to, with its own skip flag "
+         "-- the statements mention the rest of the history only through lookup, so other classes, their order and name reuse "
+         "cannot matter; C15_no_getters. Tied by defining generated hierarchies for real in two orders and reading the map "
+         "back (owner, name, flag, bound instance), and by an independent getattr_static walk.",
+    note="Trusted: Coq kernel + VM, the hand model of routing.py and of single-inheritance attribute lookup (compared). "
+         "Multiple inheritance / metaclasses are outside the model.", design="4/C15")
+
 PENDING_REASON = "check not built yet in this round (work in progress; see DESIGN.md section 9)"
 
 
